@@ -1184,6 +1184,10 @@ class Interp:
         from .sstr import Hole, SStr
 
         parts = []
+        if getattr(self, "fstring_uf", False):
+            r = self._joinedstr_uf(node, frame)
+            if r is not NotImplemented:
+                return r
         for v in node.values:
             if isinstance(v, ast.Constant):
                 parts.append(v.value)
@@ -1211,6 +1215,35 @@ class Interp:
         if all(isinstance(p, str) for p in parts):
             return "".join(parts)
         return SStr(parts)
+
+    def _joinedstr_uf(self, node, frame):
+        """f-string with symbolic str/int fields as an application of an uninterpreted function named
+        after the literal skeleton: equal skeleton and equal field values give equal strings (congruence
+        is all a proof may use; nothing is assumed about different skeletons)."""
+        skeleton, vals = [], []
+        for v in node.values:
+            if isinstance(v, ast.Constant):
+                skeleton.append(v.value)
+            else:
+                if v.conversion != -1 or v.format_spec is not None:
+                    return NotImplemented
+                skeleton.append(None)
+                vals.append(self.eval(v.value, frame))
+        if not has_sym(vals):
+            return "".join(str(vals.pop(0)) if k is None else k for k in skeleton)
+        terms = []
+        for val in vals:
+            if isinstance(val, Sym) and val.ty in (TStr, TInt):
+                terms.append(val.t)
+            elif isinstance(val, bool) or not isinstance(val, (str, int)):
+                return NotImplemented
+            elif isinstance(val, str):
+                terms.append(z3.StringVal(val))
+            else:
+                terms.append(z3.IntVal(val))
+        sig = "|".join("{}" if k is None else k for k in skeleton) + ":" + "".join("s" if t.sort() == z3.StringSort() else "i" for t in terms)
+        f = z3.Function("fstr!" + sig, *[t.sort() for t in terms], z3.StringSort())
+        return Sym(f(*terms), TStr)
 
     def symstr_concat(self, parts):
         raise OutsideSubset("symbolic string concatenation")
